@@ -291,6 +291,7 @@ func (x *Exec) applyContract(st *State, fr *Frame, c *callCtx, ct *Contract) {
 	}
 	env = x.specEnvFor(st, fn, c.args, results, heap0)
 	x.extendEnv(env, st, fr)
+	env.assume = true
 	for _, cl := range ct.Ensures {
 		t, err := env.EvalBool(cl.Text)
 		if err != nil {
